@@ -116,6 +116,28 @@ fn walk(cx: &mut Ctx, v: &Value, r: &RVal, i: usize) -> Result<usize, String> {
 				let want: Vec<(usize, usize, usize)> = idx.clone();
 				cx.checks += crate::monitor::check_iter_by(&format!("object at {}: iter_mapped", i), &|| o.iter_mapped(cx.cm, i), &|m: json_syntax::object::MappedEntry| (m.offset, m.value.key.offset, m.value.value.offset), &want)?;
 			}
+			// the object-level conversion trait, directly and through its Box impl, at this object's offset:
+			// the probe type reports the offset of the first value that is not a number
+			{
+				use json_syntax::TryFromJsonObject;
+				let want: Result<(), usize> = match ro.iter().position(|e| !matches!(e.1, RVal::Num(_))) {
+					Some(p) => Err(idx[p].2),
+					None => Ok(()),
+				};
+				let direct = ObjProbe::try_from_json_object_at(o, cx.cm, i).map(|_| ());
+				let boxed = <Box<ObjProbe>>::try_from_json_object_at(o, cx.cm, i).map(|_| ());
+				let twice = <Box<Box<ObjProbe>>>::try_from_json_object_at(o, cx.cm, i).map(|_| ());
+				cx.checks += 3;
+				if direct != want || boxed != want || twice != want {
+					return Err(format!("object at {}: TryFromJsonObject reports {:?} (direct) / {:?} (Box) / {:?} (Box<Box>), the first non-number value is at {:?}", i, direct, boxed, twice, want));
+				}
+				if i == 0 {
+					let root = <Box<ObjProbe>>::try_from_json_object(o, cx.cm).map(|_| ());
+					if root != want {
+						return Err(format!("root object: Box::try_from_json_object reports {:?}, expected {:?}", root, want));
+					}
+				}
+			}
 			// key-based lookups, for every key present and an absent one
 			let mut keys: Vec<&str> = ro.iter().map(|e| e.0.as_str()).collect();
 			keys.sort();
@@ -218,6 +240,23 @@ fn walk(cx: &mut Ctx, v: &Value, r: &RVal, i: usize) -> Result<usize, String> {
 			Ok(j - i)
 		}
 		_ => Ok(1),
+	}
+}
+
+/// A user type converted from an object: fails with the code-map offset of the
+/// first value that is not a number.
+struct ObjProbe;
+
+impl json_syntax::TryFromJsonObject for ObjProbe {
+	type Error = usize;
+
+	fn try_from_json_object_at(object: &json_syntax::Object, code_map: &CodeMap, offset: usize) -> Result<Self, usize> {
+		for m in object.iter_mapped(code_map, offset) {
+			if !m.value.value.value.is_number() {
+				return Err(m.value.value.offset);
+			}
+		}
+		Ok(ObjProbe)
 	}
 }
 
